@@ -60,10 +60,24 @@ func newOracle(b *j5sgen.Bundle, pkg string) *oracle {
 		o.decls[p][n] = declInfo{k, f}
 	}
 	for _, f := range b.Files {
-		for _, e := range f.Elements {
+		for _, e := range f.Expanded() {
 			if e.N != nil {
 				name := e.N.Name
 				add(f.Package(), name, e.N.Kind, f.Path()+".proto")
+				// explicitly nested declarations can be referred to by their dotted name
+				// (the events of an entity: <Name>EventType.<Event>)
+				var sub func(prefix string, ns []*j5sgen.Nested)
+				sub = func(prefix string, ns []*j5sgen.Nested) {
+					for _, n := range ns {
+						nm := n.Name
+						if n.Kind == "enum" {
+							nm = n.Enum.Name
+						}
+						add(f.Package(), prefix+"."+nm, n.Kind, f.Path()+".proto")
+						sub(prefix+"."+nm, n.Subs)
+					}
+				}
+				sub(name, e.N.Subs)
 			}
 		}
 	}
@@ -454,7 +468,7 @@ func (o *oracle) Check(files []*DFile) []violation {
 				o.fail("C02 file package", "package follows the path", df.Pkg, o.pkg)
 			}
 			var wantM, wantE []string
-			for _, e := range src.Elements {
+			for _, e := range src.Expanded() {
 				switch e.Kind {
 				case "object", "oneof":
 					wantM = append(wantM, e.N.Name)
@@ -466,7 +480,7 @@ func (o *oracle) Check(files []*DFile) []violation {
 				o.fail("C02 top-level messages: not exactly the declared objects and oneofs", "exactly the declared messages", mainPath+": "+fmt.Sprint(msgNames(df.Msgs)), fmt.Sprint(wantM))
 			}
 			mi, ei := 0, 0
-			for _, e := range src.Elements {
+			for _, e := range src.Expanded() {
 				switch e.Kind {
 				case "object", "oneof":
 					if mi < len(df.Msgs) && df.Msgs[mi].Name == e.N.Name {
@@ -490,7 +504,7 @@ func (o *oracle) Check(files []*DFile) []violation {
 			}
 			o.checkDeps(fc, df)
 		}
-		for _, e := range src.Elements {
+		for _, e := range src.Expanded() {
 			if e.Kind == "service" {
 				svcs = append(svcs, e.Service)
 			}
